@@ -18,7 +18,7 @@ func init() { register(&Spec{ID: "C02", Targets: []load.Target{load.Linux}, Run:
 
 func runC02(c *core.Ctx) {
 	runFixtures(c, "bounds", "drop")
-	c.Explain("Bytes, offsets and EOF timing are values and not decidable statically. Decided mechanisms: (R02.1) access-mode capability: no method of the read-only handle wrapper reaches a content mutator (blob.Set/Grow/Truncate), no method of the write-only wrapper reaches a content reader (blob.View/Slice), over the static call graph — a read-only handle can never change contents, a write-only handle can never read them; (R02.2) directory guard as sibling agreement: every byte-I/O method of the file type that touches the content blob (read, write, truncate) has an IsDir() guard before the blob access whose taken edge returns an ErrIsDir-class error; (R02.3) live size: in the methods that compare an offset/size parameter with the file size, the size is the length of the content loaded in that call (a Size() of the record cached at open time is flagged), so every handle sees the current size; (R02.4) validate before mutate: on every path of the write and truncate methods the first content mutator is dominated by the rejection of a negative offset/size. (R02.5) a write method that redirects its offset to the content length under the O_APPEND test hands the redirected offset back (result or handle field), so the handle's position ends at the new end of file; (R02.6) every content mutation of a write is dominated by 'the data is not empty' — an empty write beyond the end must not grow the file; (R02.7) the handle's Stat loads the content before returning a regular file's info, so Size() is current; (R02.8) a method that passes its own offset parameter to the write primitive (a positioned write) does so only below a test of the append flag whose other side returns an error — os.File refuses WriteAt on an O_APPEND handle, and silently appending instead would put the bytes somewhere else than asked; (R02.9 = R01.6) the flag reaches the handle on every path of OpenFile; (R02.10) in Seek every store into the handle's offset is dominated by the rejection of a negative value of what is stored — a failed Seek must leave the position unchanged; (R02.11) the in-memory store's set stores the contents blob it is given itself, not a copy: handles of one file see each other's writes because they share that blob; (R02.12) in every handle method that changes the content blob and then writes the record back, the path on which the write-back fails changes the blob again (restores it) before returning — 'a call that fails leaves the contents unchanged' (known finding: it does not). (R02.13) OpenFile constructs a record only on the edge where the look-up failed; (R02.14) a Grow amount equals the tested target minus the current length on every path; (R02.15) positioned methods, Truncate, Stat and Chmod reach no store to the offset; (R02.16) write methods never store the caller's buffer. (R02.15, extended) no exported method of the file system reaches a store to a handle's offset; (R02.17) the sequential methods store the offset on every path after their positioned call. (R02.18) the window a positioned read selects starts at or before the content's end by dominating comparisons. NOT claimed: transferred bytes, offsets, EOF exactness, zero fill, O_APPEND placement, coherence beyond R02.3.")
+	c.Explain("Bytes, offsets and EOF timing are values and not decidable statically. Decided mechanisms: (R02.1) access-mode capability: no method of the read-only handle wrapper reaches a content mutator (blob.Set/Grow/Truncate), no method of the write-only wrapper reaches a content reader (blob.View/Slice), over the static call graph — a read-only handle can never change contents, a write-only handle can never read them; (R02.2) directory guard as sibling agreement: every byte-I/O method of the file type that touches the content blob (read, write, truncate) has an IsDir() guard before the blob access whose taken edge returns an ErrIsDir-class error; (R02.3) live size: in the methods that compare an offset/size parameter with the file size, the size is the length of the content loaded in that call (a Size() of the record cached at open time is flagged), so every handle sees the current size; (R02.4) validate before mutate: on every path of the write and truncate methods the first content mutator is dominated by the rejection of a negative offset/size. (R02.5) a write method that redirects its offset to the content length under the O_APPEND test hands the redirected offset back (result or handle field), so the handle's position ends at the new end of file; (R02.6) every content mutation of a write is dominated by 'the data is not empty' — an empty write beyond the end must not grow the file; (R02.7) the handle's Stat loads the content before returning a regular file's info, so Size() is current; (R02.8) a method that passes its own offset parameter to the write primitive (a positioned write) does so only below a test of the append flag whose other side returns an error — os.File refuses WriteAt on an O_APPEND handle, and silently appending instead would put the bytes somewhere else than asked; (R02.9 = R01.6) the flag reaches the handle on every path of OpenFile; (R02.10) in Seek every store into the handle's offset is dominated by the rejection of a negative value of what is stored — a failed Seek must leave the position unchanged; (R02.11) the in-memory store's set stores the contents blob it is given itself, not a copy: handles of one file see each other's writes because they share that blob; (R02.12) in every handle method that changes the content blob and then writes the record back, the path on which the write-back fails changes the blob again (restores it) before returning — 'a call that fails leaves the contents unchanged' (known finding: it does not). (R02.13) OpenFile constructs a record only on the edge where the look-up failed; (R02.14) a Grow amount equals the tested target minus the current length on every path; (R02.15) positioned methods, Truncate, Stat and Chmod reach no store to the offset; (R02.16) write methods never store the caller's buffer. (R02.15, extended) no exported method of the file system reaches a store to a handle's offset; (R02.17) the sequential methods store the offset on every path after their positioned call. (R02.18) the window a positioned read selects starts at or before the content's end by dominating comparisons. (R02.19) no O_APPEND test is reachable from Truncate; (R02.20) positioned methods return a constant-nil error only after the offset/size was compared or handed on. NOT claimed: transferred bytes, offsets, EOF exactness, zero fill, O_APPEND placement, coherence beyond R02.3.")
 	c.Assume("the static call graph is complete for these wrappers (they call the inner *file statically)")
 	c.RuleDoc("R02.1", "access-mode wrappers cannot reach forbidden content operations")
 	c.RuleDoc("R02.2", "directory guard on every byte-I/O method")
